@@ -104,15 +104,19 @@ def run_driver_cases(ctx, exe, lines, label, batch=400, procs=None, timeout=600)
                                             'stderr': tail}
                     pos += 1
                 restarts += 1
-                if restarts > 50:
-                    raise MachineryError('driver keeps dying (%s), last rc=%s' % (label, rc))
+                if restarts > 40:
+                    # a tree on which the rebuild dies this often: every death so far is a recorded crash case (P: "terminates
+                    # without crashing"); the rest of this batch is not evaluated
+                    for j in range(pos, len(ls)):
+                        results[start + j] = {'id': str(start + j), 'skipped': True}
+                    break
         shutil.rmtree(wd, ignore_errors=True)
 
     with concurrent.futures.ThreadPoolExecutor(max_workers=procs) as ex:
         list(ex.map(one, chunks))
     shutil.rmtree(root, ignore_errors=True)
     for i, r in enumerate(results):
-        if r is None or 'out' not in r:
+        if r is None or ('out' not in r and not r.get('skipped')):
             raise MachineryError('driver gave no result for case %d (%s): %r' % (i, label, r))
     return results
 
@@ -593,6 +597,11 @@ def run(ctx):
     lines = [case_line(i, n, kf, img) for i, (n, kf, img, tag) in enumerate(items)]
     ctx.log('%d images' % len(items))
     outs = run_driver_cases(ctx, exe, lines, 'img')
+    skipped = [i for i, o in enumerate(outs) if o.get('skipped')]
+    if skipped:
+        ctx.cov['images_skipped_after_repeated_crashes'] = len(skipped)
+        keep = [i for i, o in enumerate(outs) if not o.get('skipped')]
+        items, lines, outs = [items[i] for i in keep], [lines[i] for i in keep], [outs[i] for i in keep]
     # which repairs does this tree have? (selects the I-layer variant; the P-layer does not depend on it)
     fix = repairs_from([(tag[6:], o['out']) for (n, kf, img, tag), o in zip(items, outs) if tag.startswith('probe:')])
     ctx.cov['repairs_detected'] = fix
